@@ -738,6 +738,28 @@ impl<'de> Deserializer<'de> {
         self.input.set_position(pos + len);
         visitor.visit_unit()
     }
+    /// The wire elements are not key-value pairs. As for every other vector, an empty
+    /// vector still coerces, whatever its element type; a non-empty one is a type mismatch.
+    fn deserialize_empty_map<'a, V>(&'a mut self, visitor: V) -> Result<V::Value>
+    where
+        V: Visitor<'de>,
+    {
+        if self.read_len()? != 0 {
+            return Err(Error::subtype("expect a key-value pair"));
+        }
+        let unit: Type = TypeInner::Reserved.into();
+        visitor.visit_map(Compound::new(
+            self,
+            Style::Map {
+                len: 0,
+                expect: (unit.clone(), unit.clone()),
+                wire: (unit.clone(), unit),
+                key_text_fast: false,
+                #[cfg(feature = "bignum")]
+                value_bignum_fast: None,
+            },
+        ))
+    }
     fn recoverable_visit_some<'a, V>(&'a mut self, visitor: V) -> Result<V::Value>
     where
         V: Visitor<'de>,
@@ -1322,10 +1344,10 @@ impl<'de> de::Deserializer<'de> for &mut Deserializer<'de> {
                                 }
                                 result
                             }
-                            _ => Err(Error::subtype("expect a key-value pair")),
+                            _ => self.deserialize_empty_map(visitor),
                         }
                     }
-                    _ => Err(Error::subtype("expect a key-value pair")),
+                    _ => self.deserialize_empty_map(visitor),
                 }
             }
             _ => check!(false),
